@@ -492,3 +492,44 @@ pub fn multi_rate(_args: &[String]) -> String {
     }
     "{\"found\": false, \"tried\": 1}".to_string()
 }
+
+
+/// C06: a bar removed from its MultiProgress (finished or not) performs no terminal operation afterwards, and
+/// its getters evolve like those of a visible bar.
+pub fn multi_removed(_args: &[String]) -> String {
+    std::panic::set_hook(Box::new(|_| {}));
+    let mut tried = 0u64;
+    for pre in 0..4 {
+        let ops = Arc::new(AtomicUsize::new(0));
+        let t = Counting { inner: InMemoryTerm::new(H, W as u16), flushes: ops.clone() };
+        let mp = MultiProgress::with_draw_target(ProgressDrawTarget::term_like(Box::new(t)));
+        let keep = mp.add(ProgressBar::new(10));
+        let pb = mp.add(ProgressBar::new(10));
+        keep.tick();
+        pb.tick();
+        let mut hist = vec!["MultiProgress with bars keep, pb".to_string()];
+        match pre {
+            1 => { pb.finish(); hist.push("pb.finish()".into()); }
+            2 => { pb.abandon_with_message("x"); hist.push("pb.abandon_with_message(x)".into()); }
+            3 => { pb.finish_and_clear(); hist.push("pb.finish_and_clear()".into()); }
+            _ => {}
+        }
+        mp.remove(&pb);
+        hist.push("mp.remove(&pb)".into());
+        let before = ops.load(Ordering::SeqCst);
+        pb.set_message("later");
+        pb.inc(1);
+        pb.tick();
+        pb.println("log");
+        pb.reset();
+        pb.finish_with_message("again");
+        hist.push("pb.set_message; inc; tick; println; reset; finish_with_message".into());
+        tried += 1;
+        let after = ops.load(Ordering::SeqCst);
+        if after != before {
+            let h: Vec<&str> = hist.iter().map(String::as_str).collect();
+            return format!("{{\"found\": true, \"clause\": \"C06 a bar removed from its MultiProgress never invokes a terminal operation\", \"input\": {{\"history\": {}, \"frames_flushed_after_removal\": {}}}, \"rerun\": \"replay multi_removed\"}}", crate::jlist(&h), after - before);
+        }
+    }
+    format!("{{\"found\": false, \"tried\": {}}}", tried)
+}
